@@ -5,3 +5,5 @@ import Rp2.Props.C12
 #print axioms Rp2.C12.non_numeric_rejected
 #print axioms Rp2.C12.bad_row_aborts
 #print axioms Rp2.C12.in_table_required
+#print axioms Rp2.C12.cli_fault_rejected
+#print axioms Rp2.C12.type_table_agrees
